@@ -44,3 +44,27 @@ def sparse_connectedpixels_splat(v, i, j, threshold, ni, nj):
     f.restype = ctypes.c_int
     n = f(ptr(v), ptr(i), ptr(j), ctypes.c_int(len(v)), ctypes.c_float(threshold), ptr(labels), ptr(Z), ctypes.c_int(ni), ctypes.c_int(nj))
     return n, labels
+
+
+def set_threads(n):
+    lib().cimaged11_omp_set_num_threads(ctypes.c_int(int(n)))
+
+
+def localmaxlabel(data, fill_labels=-7, fill_wrk=77):
+    data = np.ascontiguousarray(data, np.float32)
+    labels = np.full(data.shape, fill_labels, np.int32)
+    wrk = np.full(data.shape, fill_wrk, np.uint8)
+    f = lib().localmaxlabel
+    f.restype = ctypes.c_int
+    n = f(ptr(data), ptr(labels), ptr(wrk), ctypes.c_int(data.shape[0]), ctypes.c_int(data.shape[1]))
+    return n, labels
+
+
+def sparse_localmaxlabel(v, i, j):
+    v = np.ascontiguousarray(v, np.float32); i = np.ascontiguousarray(i, np.uint16); j = np.ascontiguousarray(j, np.uint16)
+    n = len(v)
+    MV = np.full(n, 5.5, np.float32); iMV = np.full(n, -3, np.int32); labels = np.full(n, -9, np.int32)
+    f = lib().sparse_localmaxlabel
+    f.restype = ctypes.c_int
+    r = f(ptr(v), ptr(i), ptr(j), ctypes.c_int(n), ptr(MV), ptr(iMV), ptr(labels))
+    return r, labels
